@@ -394,7 +394,8 @@ fn cmd_run(args: &[String]) -> i32 {
         let mut b = 0;
         while b * per < scenarios {
             let first = b * per;
-            let slots = (scenarios - first).min(per);
+            // every 8th run index goes to the deadlock-panic family instead
+            let slots = (first..(first + per).min(scenarios)).filter(|x| x % 8 != 7).count() as u64;
             let (_, _, n) = families::crash_point_scenario(profiles::scenario_seed(&prop, seed, first), first);
             let n = n as u64;
             bases += 1;
